@@ -410,6 +410,9 @@ type tableInit struct {
 	store   *ssa.Store
 	sqPhi   *ssa.Phi
 	statePh *ssa.Phi
+	// sqNext: set when the table is indexed by 'counter + 1' of a loop that starts at -1 (the form 'for i := range
+	// table' compiles to): the index value itself, computed in the loop header
+	sqNext *ssa.BinOp
 }
 
 func findTableInit(c *Ctx, table string) *tableInit {
@@ -448,6 +451,12 @@ func findTableInit(c *Ctx, table string) *tableInit {
 				ti := &tableInit{fn: fn, store: st}
 				if p, ok := stripConv(idx[0]).(*ssa.Phi); ok {
 					ti.sqPhi = p
+				} else if bo, ok := stripConv(idx[0]).(*ssa.BinOp); ok && bo.Op == token.ADD {
+					if p, ok := stripConv(bo.X).(*ssa.Phi); ok {
+						if k, isC := constInt(bo.Y); isC && k == 1 {
+							ti.sqPhi, ti.sqNext = p, bo
+						}
+					}
 				}
 				if len(idx) > 1 {
 					if p, ok := stripConv(idx[1]).(*ssa.Phi); ok {
@@ -669,12 +678,29 @@ func c06Leapers(e *c06env) {
 		header := ti.sqPhi.Block()
 		iv, ok := inductionVar(ti.sqPhi)
 		lo, hi, ok2 := iv.constRange()
+		if ti.sqNext != nil {
+			// 'for i := range table': the counter starts at -1, the header computes next = counter+1 and tests next < 64
+			header = ti.sqNext.Block()
+			ok, ok2, lo, hi = false, false, 0, 0
+			if iv.InitIsC && iv.InitC == -1 && iv.Step == 1 && len(header.Succs) == 2 {
+				if ifi, isIf := header.Instrs[len(header.Instrs)-1].(*ssa.If); isIf {
+					if cmp, isCmp := ifi.Cond.(*ssa.BinOp); isCmp && cmp.Op == token.LSS && stripConv(cmp.X) == ssa.Value(ti.sqNext) {
+						if k, isC := constInt(cmp.Y); isC {
+							ok, ok2, lo, hi = true, true, 0, k-1
+						}
+					}
+				}
+			}
+		}
 		if !ok || !ok2 || lo != 0 || hi != 63 || len(header.Succs) != 2 {
 			r.Fail("R06-leapers", "board."+lp.table+" square loop covers 0..63", where, "", fmt.Sprintf("range [%d,%d]", lo, hi))
 			continue
 		}
 		for sq := 0; sq < 64; sq++ {
 			env := map[ssa.Value]absint.Value{ti.sqPhi: absint.MkInt(int64(sq), ti.sqPhi.Type())}
+			if ti.sqNext != nil {
+				env = map[ssa.Value]absint.Value{ti.sqPhi: absint.MkInt(int64(sq-1), ti.sqPhi.Type()), ti.sqNext: absint.MkInt(int64(sq), ti.sqNext.Type())}
+			}
 			outs := e.in.RunFrom(ti.fn, header.Succs[0], header, env, map[*ssa.BasicBlock]bool{header: true}, absint.NewState())
 			cons := fmt.Sprintf("board.%s[sq]|sq=%d", lp.table, sq)
 			if len(outs) != 1 || outs[0].Undecided() {
@@ -988,6 +1014,20 @@ func c06Queries(e *c06env) {
 				}
 			} else if hitKnown && !hit {
 				bad = "answers 'not attacked' although the intersection is non-empty"
+			} else if !hitKnown {
+				// 'not attacked' needs a reason: the intersection was found empty, or the opponent has no piece of
+				// the kind at all (the short-circuit in front of the board lookup) - not some other test
+				noneOfKind := false
+				for _, f := range o.St.Facts {
+					if s, ok := f.Cond.(*absint.Sym); ok && len(s.Args) == 2 && vstrOf(s.Args[0]) == set {
+						if k, isC := absint.ConstInt(s.Args[1]); isC && k == 0 && ((s.Op == "==" && f.Truth) || (s.Op == "!=" && !f.Truth)) {
+							noneOfKind = true
+						}
+					}
+				}
+				if !noneOfKind {
+					bad = fmt.Sprintf("answers 'not attacked' without having found %s empty [%s]: a pre-filter that is not implied by the intersection (a line-of-sight test in front of a knight lookup) hides real attacks", wantAnd, o.St.FactsString())
+				}
 			}
 		}
 		if nTrue == 0 && bad == "" {
